@@ -2,6 +2,7 @@
 //! real scpi / scpi-contrib code. It only drives, projects and compares; every rule lives in
 //! the specification.
 
+mod errclass;
 mod queue;
 mod status;
 mod util;
@@ -11,6 +12,7 @@ fn main() {
     let cmd = args.first().map(|s| s.as_str()).unwrap_or("");
     let rest = &args[1.min(args.len())..];
     let code = match cmd {
+        "errclass-rows" => errclass::rows(rest),
         "queue-edges" => queue::replay_edges(rest),
         "queue-trace" => queue::record_trace(rest),
         "status-edges" => status::replay_edges(rest),
